@@ -36,6 +36,7 @@ func (n *node) RouteSendPID(from gen.PID, to gen.PID, options gen.MessageOptions
 	}
 	p := value.(*process)
 
+	lib.VerifPoint(p, "send:alive")
 	if alive := p.isAlive(); alive == false {
 		return gen.ErrProcessTerminated
 	}
@@ -55,6 +56,7 @@ func (n *node) RouteSendPID(from gen.PID, to gen.PID, options gen.MessageOptions
 	qm.Target = to
 	qm.Message = message
 
+	lib.VerifPoint(p, "send:push")
 	if ok := queue.Push(qm); ok == false {
 		if p.fallback.Enable == false {
 			return gen.ErrProcessMailboxFull
@@ -107,6 +109,7 @@ func (n *node) RouteSendProcessID(from gen.PID, to gen.ProcessID, options gen.Me
 	}
 	p := value.(*process)
 
+	lib.VerifPoint(p, "send:alive")
 	if alive := p.isAlive(); alive == false {
 		return gen.ErrProcessTerminated
 	}
@@ -126,6 +129,7 @@ func (n *node) RouteSendProcessID(from gen.PID, to gen.ProcessID, options gen.Me
 	qm.Target = to.Name
 	qm.Message = message
 
+	lib.VerifPoint(p, "send:push")
 	if ok := queue.Push(qm); ok == false {
 		if p.fallback.Enable == false {
 			return gen.ErrProcessMailboxFull
@@ -175,6 +179,7 @@ func (n *node) RouteSendAlias(from gen.PID, to gen.Alias, options gen.MessageOpt
 	}
 	p := value.(*process)
 
+	lib.VerifPoint(p, "send:alive")
 	if alive := p.isAlive(); alive == false {
 		return gen.ErrProcessTerminated
 	}
@@ -205,6 +210,7 @@ func (n *node) RouteSendAlias(from gen.PID, to gen.Alias, options gen.MessageOpt
 		queue = p.mailbox.Main
 	}
 
+	lib.VerifPoint(p, "send:push")
 	if ok := queue.Push(qm); ok == false {
 		if p.fallback.Enable == false {
 			return gen.ErrProcessMailboxFull
@@ -410,6 +416,7 @@ func (n *node) RouteCallPID(from gen.PID, to gen.PID, options gen.MessageOptions
 	}
 	p := value.(*process)
 
+	lib.VerifPoint(p, "send:alive")
 	if alive := p.isAlive(); alive == false {
 		return gen.ErrProcessTerminated
 	}
@@ -429,6 +436,7 @@ func (n *node) RouteCallPID(from gen.PID, to gen.PID, options gen.MessageOptions
 	qm.Type = gen.MailboxMessageTypeRequest
 	qm.Message = message
 
+	lib.VerifPoint(p, "send:push")
 	if ok := queue.Push(qm); ok == false {
 		return gen.ErrProcessMailboxFull
 	}
@@ -461,6 +469,7 @@ func (n *node) RouteCallProcessID(from gen.PID, to gen.ProcessID, options gen.Me
 		return gen.ErrProcessUnknown
 	}
 	p := value.(*process)
+	lib.VerifPoint(p, "send:alive")
 	if alive := p.isAlive(); alive == false {
 		return gen.ErrProcessTerminated
 	}
@@ -481,6 +490,7 @@ func (n *node) RouteCallProcessID(from gen.PID, to gen.ProcessID, options gen.Me
 	qm.Target = to.Name
 	qm.Message = message
 
+	lib.VerifPoint(p, "send:push")
 	if ok := queue.Push(qm); ok == false {
 		return gen.ErrProcessMailboxFull
 	}
@@ -514,6 +524,7 @@ func (n *node) RouteCallAlias(from gen.PID, to gen.Alias, options gen.MessageOpt
 		return gen.ErrProcessUnknown
 	}
 	p := value.(*process)
+	lib.VerifPoint(p, "send:alive")
 	if alive := p.isAlive(); alive == false {
 		return gen.ErrProcessTerminated
 	}
@@ -544,6 +555,7 @@ func (n *node) RouteCallAlias(from gen.PID, to gen.Alias, options gen.MessageOpt
 	default:
 		queue = p.mailbox.Main
 	}
+	lib.VerifPoint(p, "send:push")
 	if ok := queue.Push(qm); ok == false {
 		return gen.ErrProcessMailboxFull
 	}
@@ -1540,6 +1552,7 @@ func (n *node) sendExitMessage(from gen.PID, to gen.PID, message any) error {
 	qm.Type = gen.MailboxMessageTypeExit
 	qm.Message = message
 
+	lib.VerifPoint(p, "send:push")
 	if ok := p.mailbox.Urgent.Push(qm); ok == false {
 		return gen.ErrProcessMailboxFull
 	}
@@ -1581,6 +1594,7 @@ func (n *node) sendEventMessage(
 	qm.Type = gen.MailboxMessageTypeEvent
 	qm.Message = message
 
+	lib.VerifPoint(p, "send:push")
 	if ok := queue.Push(qm); ok == false {
 		return gen.ErrProcessMailboxFull
 	}
